@@ -87,6 +87,21 @@ pub fn check_size(id: u8, w: u32, h: u32, all_pixels: bool, lengths: bool) -> (u
                 break;
             }
         }
+        // the same pixel -> bit map on a page built over BORROWED blank bytes (copy-on-write path)
+        if let Ok(mut bp) = Page::from_bytes(w, h, &want[..]) {
+            for (x, y) in pixels(w, h, all_pixels && (w as u64 * h as u64) <= 4096) {
+                evals += 1;
+                bp.set_pixel(x, y, true);
+                let idx = 4 + x as usize * bpc + (y / 8) as usize;
+                let bit = 1u8 << (y % 8);
+                let b = bp.as_bytes();
+                if !(b.len() == want.len() && b[idx] == bit && b.iter().enumerate().all(|(i, &v)| i == idx || v == want[i])) {
+                    out.push(("pixel-bit-position", "borrowed-page".into(), format!("setting ({},{}) on a blank {}x{} page built over borrowed bytes: {} bytes (expected {}), byte {} = {:02X}", x, y, w, h, b.len(), want.len(), idx, b.get(idx).copied().unwrap_or(0))));
+                    break;
+                }
+                bp.set_pixel(x, y, false);
+            }
+        }
         // from_bytes over the page's own bytes, owned and borrowed
         evals += 2;
         match (Page::from_bytes(w, h, want.clone()), Page::from_bytes(w, h, &want[..])) {
@@ -110,6 +125,21 @@ pub fn check_size(id: u8, w: u32, h: u32, all_pixels: bool, lengths: bool) -> (u
             for l in cands {
                 evals += 1;
                 let buf: Vec<u8> = (0..l).map(|j| (j * 7 + 3) as u8).collect();
+                // the owned path must judge the length exactly like the borrowed one
+                match Page::from_bytes(w, h, buf.clone()) {
+                    Ok(pg) => {
+                        if l != pad {
+                            out.push(("from-bytes", "owned-accepts-wrong-length".into(), format!("from_bytes({}x{}) accepted an owned Vec of {} bytes, padded size is {}", w, h, l, pad)));
+                        } else if pg.as_bytes() != &buf[..] {
+                            out.push(("from-bytes", "owned-exposes-other-bytes".into(), format!("from_bytes({}x{}, owned) does not expose exactly the bytes given", w, h)));
+                        }
+                    }
+                    Err(_) => {
+                        if l == pad {
+                            out.push(("from-bytes", "owned-rejects-right-length".into(), format!("from_bytes({}x{}) rejected an owned Vec of the padded size {}", w, h, l)));
+                        }
+                    }
+                }
                 match Page::from_bytes(w, h, &buf[..]) {
                     Ok(pg) => {
                         if l != pad {
